@@ -11,6 +11,9 @@ COMP = "robotools/liquidhandling/composition.py"
 UT = "robotools/utils.py"
 
 MUTANTS = [
+    dict(id="combine-wrong-weight", expect=["C05"], edits=[(COMP, "        volumetric_fractions[k] += f * volume_B", "        volumetric_fractions[k] += f * volume_A")]),
+    dict(id="combine-drop-zero-amount", expect=["C05"], edits=[(COMP, "    new_composition = {k: v / (volume_A + volume_B) for k, v in volumetric_fractions.items()}", "    new_composition = {k: v / (volume_A + volume_B) for k, v in volumetric_fractions.items() if v > 0}")]),
+    dict(id="default-name-shared", expect=["C05"], edits=[(COMP, '            default_name = f"{name}.{w}" if is_multiwell else name', '            default_name = f"{name}.{w[0]}" if is_multiwell else name')]),
     dict(id="fluent-dst-composition", expect=["C16", "C01"], edits=[(FLW, "                                compositions=[source.get_well_composition(s)],", "                                compositions=[destination.get_well_composition(d)],")]),
     dict(id="fluent-noop-rewrite", expect=[], silent=["C16"], edits=[(FLW, "                            nsteps += 1", "                            nsteps = nsteps + 1")]),
     dict(id="log-live-array", expect=["C11"], edits=[(LW, "        self._history.append(self.volumes)", "        self._history.append(self._volumes)")]),
